@@ -100,6 +100,14 @@ def sources(tier, seed, ctx):
     for name in ('aig', 'xaig'):
         for j in range(0, len(models), 40):
             srcs.append({'k': 'models', 'db': name, 'models': models[j:j + 40]})
+    # many don't-cares (13 of 16 entries: 8192 completions, more than any batch an implementation might walk them in);
+    # the defined entries are placed so that the smallest completion needs the FIRST don't-cares False / True
+    for name in ('aig', 'xaig'):
+        for j in range(3 if tier == 'quick' else 12):
+            mt = [[2] * 8, [2] * 8]
+            for pos, v in zip(rng.sample(range(16), 3), (rng.randint(0, 1), rng.randint(0, 1), rng.randint(0, 1))):
+                mt[pos // 8][pos % 8] = v
+            srcs.append({'k': 'models', 'db': name, 'models': [mt]})
     # the size measure of the don't-care lookup is a parameter (exclusion_list): the documented default, nothing
     # excluded, only inputs, and lists under which some stored circuits measure 0 (parity / conjunction gates free)
     EXCL = [[], ['INPUT'], ['INPUT', 'NOT', 'XOR', 'NXOR'], ['INPUT', 'AND', 'OR', 'NAND', 'NOR'], ['INPUT', 'NOT', 'IFF', 'AND']]
